@@ -134,7 +134,7 @@ def body_gff3(ch, ctx):
         if kind in ("id", "both"):
             attrs["ID"] = [IDV[i]]
         if kind == "two_ids":
-            attrs["ID"] = [IDV[i], "j%d" % i]
+            attrs["ID"] = [IDV[i], "j%d" % i] if i != 2 else [IDV[i], IDV[i]]       # the third line carries the SAME value twice: still several values
         if kind == "empty_id":
             attrs["ID"] = []            # "ID=" : the attribute is written but carries no value
             attrs["Name"] = ["n%d" % i]
@@ -242,14 +242,16 @@ def body_gtf(ch, ctx):
 
     for i, ft in enumerate(fts):
         texts.append('c1\ts\t%s\t%d\t%d\t.\t+\t.\tgene_id "g%d"; transcript_id "t%d"; exon_id "x%d";' % (ft, 10 * i + 1, 10 * i + 5, i, i, i))
+        if i == 0:
+            texts[-1] = texts[-1].replace('"g0"', '"g%2C0"')          # GTF has no escapes: the id is these six characters
         if sname == "force_gff":
             exp.append(auto(ft))                       # GFF3 rules with the default spec 'ID': no ID attribute anywhere
         elif sname == "callable":
-            exp.append({"gene": "G:g%d" % i, "transcript": "T:t%d" % i}.get(ft) or auto(ft))
+            exp.append({"gene": "G:" + ("g%d" % i if i else "g%2C0"), "transcript": "T:t%d" % i}.get(ft) or auto(ft))
         elif sname == "dict_without_gene":
             exp.append("x%d" % i if ft == "exon" else auto(ft))
         else:
-            exp.append({"gene": "g%d" % i, "transcript": "t%d" % i}.get(ft) or auto(ft))
+            exp.append({"gene": "g%d" % i if i else "g%2C0", "transcript": "t%d" % i}.get(ft) or auto(ft))
     if sname == "default+custom_keys":
         texts = [t.replace('exon_id "x', 'gname "y%d"; tname "x' % i) for i, t in enumerate(texts)]
     # derived features (only exons give rise to them) take their key from the same id_spec
@@ -257,7 +259,7 @@ def body_gtf(ch, ctx):
     if sname != "force_gff":
         exon_idx = [i for i, ft in enumerate(fts) if ft == "exon"]
         for i in exon_idx:
-            for kind, disabled, raw in (("transcript", flags["disable_infer_transcripts"], "t%d" % i), ("gene", flags["disable_infer_genes"], "g%d" % i)):
+            for kind, disabled, raw in (("transcript", flags["disable_infer_transcripts"], "t%d" % i), ("gene", flags["disable_infer_genes"], "g%d" % i if i else "g%2C0")):
                 if disabled:
                     continue
                 if sname == "callable":
